@@ -68,7 +68,17 @@ fn mh_err(e: &ManualHeapError) -> i64 {
 trait Surface {
     fn exec(&mut self, op: &Op) -> Res;
     fn heap(&self) -> &ManualHeap;
+    /// canonical form of a stored word: a pointer to a live string "pay<k>" becomes the placeholder PH(k)
+    fn canon(&self, bits: u64) -> u64 { bits }
+    /// between two operations (the direct-call surface forces collections here)
+    fn after_step(&mut self, _rng: &mut Rng, _dist: &mut Dist) {}
 }
+
+/// placeholder word standing for "a freshly allocated heap string with content pay<k>" in the model,
+/// the reference and the observations (the real word is a pointer nobody can predict)
+pub const PH_BASE: u64 = 1 << 60;
+pub fn ph(k: u64) -> u64 { PH_BASE + k }
+pub fn ph_k(w: u64) -> Option<u64> { if w >= PH_BASE && w < PH_BASE + 100_000_000 { Some(w - PH_BASE) } else { None } }
 
 struct Api { h: ManualHeap }
 impl Surface for Api {
@@ -113,6 +123,13 @@ pub mod vmrun {
         }
     }
 
+    /// a VM that may use std.fs / std.net (needed to call fs.close / net.close on byte-buffer handles)
+    pub fn new_vm_trusted(max_heap: u64) -> VM {
+        let mut cfg = VmConfig::new(max_heap).expect("config");
+        cfg.capabilities.set_all(true);
+        aelys_driver::new_vm_with_config(cfg, Vec::new()).expect("vm")
+    }
+
     /// one REPL input; returns (code, raw bits of the value, detail message of an error)
     pub fn input(vm: &mut VM, src: &str, opt: u32) -> (i64, u64, String) {
         aelys_runtime::verif::sink_install();
@@ -132,7 +149,7 @@ pub mod vmrun {
         match a { A::I(n) => format!("{}", n), A::Null => "null".into(), A::Flt => "1.5".into() }
     }
 
-    pub struct VmSurface { pub vm: VM, pub builtin: bool, pub opt: u32, pub direct: bool, pub other: u64 }
+    pub struct VmSurface { pub vm: VM, pub builtin: bool, pub opt: u32, pub direct: bool, pub other: u64, pub gc: bool }
     impl VmSurface {
         pub fn new(builtin: bool, opt: u32, max_heap: u64) -> Self {
             let mut vm = new_vm(max_heap);
@@ -144,11 +161,11 @@ pub mod vmrun {
             };
             let (c, _, d) = input(&mut vm, prelude, opt);
             if c != OK_VAL { panic!("prelude failed: {} {}", c, d); }
-            VmSurface { vm, builtin, opt, direct: false, other: 0 }
+            VmSurface { vm, builtin, opt, direct: false, other: 0, gc: false }
         }
         /// function-level tie: the native builtins called directly with Values (no compiler involved)
         pub fn new_direct(max_heap: u64) -> Self {
-            VmSurface { vm: new_vm(max_heap), builtin: true, opt: 0, direct: true, other: 0 }
+            VmSurface { vm: new_vm(max_heap), builtin: true, opt: 0, direct: true, other: 0, gc: false }
         }
         fn val(&mut self, a: A) -> Value {
             match a {
@@ -158,9 +175,25 @@ pub mod vmrun {
                 A::Flt => { self.other += 1; match self.other % 5 { 0 => Value::float(1.5), 1 => Value::bool(true), 2 => Value::float(f64::NAN), 3 => Value::bool(false), _ => Value::float(-0.0) } }
             }
         }
+        /// collect at every safepoint (REPL surfaces) / between operations (direct surface)
+        pub fn force_gc(&mut self, on: bool) {
+            self.gc = on;
+            if !self.direct { aelys_runtime::verif::gc_mode_set(if on { 2 } else { 0 }, 0); }
+        }
+        fn canon_bits(&self, bits: u64) -> u64 {
+            let v = Value::from_raw(bits);
+            if v.as_ptr().is_some() {
+                let t = self.vm.value_to_string(v);
+                if let Some(k) = t.strip_prefix("pay").and_then(|x| x.parse::<u64>().ok()) { return ph(k); }
+            }
+            bits
+        }
         fn exec_direct(&mut self, op: &Op) -> Res {
             let (a, b) = (self.val(op.a), self.val(op.b));
-            let v = Value::from_raw(op.v);
+            let v = match ph_k(op.v) {
+                Some(k) if op.k == STORE => match self.vm.alloc_string(&format!("pay{}", k)) { Ok(r) => Value::ptr(r.index()), Err(_) => Value::null() },
+                _ => Value::from_raw(op.v),
+            };
             let vm = &mut self.vm;
             let k = op.k;
             let r = guarded(std::panic::AssertUnwindSafe(move || match k {
@@ -174,7 +207,7 @@ pub mod vmrun {
                 Ok(Err(e)) => Res { code: rt_kind(&e.kind), val: 0 },
                 Ok(Ok(v)) => match op.k {
                     ALLOC => match v.as_int() { Some(h) => Res { code: OK_HANDLE, val: h as i128 }, None => Res { code: E_OTHER, val: v.raw_bits() as i128 } },
-                    LOAD => Res { code: OK_VAL, val: v.raw_bits() as i128 },
+                    LOAD => Res { code: OK_VAL, val: self.canon_bits(v.raw_bits()) as i128 },
                     _ => if v.is_null() { Res { code: OK_UNIT, val: 0 } } else { Res { code: E_OTHER, val: v.raw_bits() as i128 } },
                 },
             }
@@ -196,11 +229,15 @@ pub mod vmrun {
             let v = Value::from_raw(bits);
             match op.k {
                 ALLOC => match v.as_int() { Some(h) => Res { code: OK_HANDLE, val: h as i128 }, None => Res { code: E_OTHER, val: bits as i128 } },
-                LOAD => Res { code: OK_VAL, val: bits as i128 },
+                LOAD => Res { code: OK_VAL, val: self.canon_bits(bits) as i128 },
                 _ => if v.is_null() { Res { code: OK_UNIT, val: 0 } } else { Res { code: E_OTHER, val: bits as i128 } },
             }
         }
         fn heap(&self) -> &ManualHeap { self.vm.manual_heap() }
+        fn canon(&self, bits: u64) -> u64 { self.canon_bits(bits) }
+        fn after_step(&mut self, rng: &mut Rng, dist: &mut Dist) {
+            if self.direct && self.gc && rng.chance(1, 3) { dist.hit("gc:collect-between-operations"); self.vm.collect(); }
+        }
     }
 }
 
@@ -240,13 +277,14 @@ fn op_name(k: u8) -> &'static str { ["alloc", "free", "load", "store", "size"][k
 fn arg_class(a: A) -> &'static str { match a { A::I(n) if n < 0 => "negative", A::I(_) => "int", A::Null => "null", A::Flt => "non-int" } }
 
 /// Checks one step of the implementation against the reference; returns the oracle findings.
-fn oracle_step(surface: &str, r: &mut RefMap, op: &Op, got: &Res, heap: &ManualHeap) -> Vec<(String, String)> {
-    oracle_step_biased(surface, r, op, got, heap, None)
+fn oracle_step(surface: &str, r: &mut RefMap, op: &Op, got: &Res, sf: &dyn Surface) -> Vec<(String, String)> {
+    oracle_step_biased(surface, r, op, got, sf, None)
 }
 
 /// `forged`: Some(charge the harness wrote through the hook, live total at that moment) -- the
 /// accounting check then is "charge moved by exactly what the live total moved by"
-fn oracle_step_biased(surface: &str, r: &mut RefMap, op: &Op, got: &Res, heap: &ManualHeap, forged: Option<(u64, u64)>) -> Vec<(String, String)> {
+fn oracle_step_biased(surface: &str, r: &mut RefMap, op: &Op, got: &Res, sf: &dyn Surface, forged: Option<(u64, u64)>) -> Vec<(String, String)> {
+    let heap = sf.heap();
     let mut out = Vec::new();
     let want = ref_expect(r, op);
     match want {
@@ -274,6 +312,9 @@ fn oracle_step_biased(surface: &str, r: &mut RefMap, op: &Op, got: &Res, heap: &
                 out.push((format!("mheap-oracle:{}:{}:valid-access-rejected", surface, op_name(op.k)), format!("{:?} -> {:?}", op, got)));
             } else {
                 match exp {
+                    Some(e) if e != *got && op.k == LOAD && ph_k(e.val as u64).is_some() => {
+                        out.push((format!("mheap-oracle:{}:gc:stored-heap-object-lost", surface), format!("{:?} -> {:?}: the slot was given the string \"pay{}\" and what comes back no longer is that string (collected while only manual memory referred to it)", op, got, ph_k(e.val as u64).unwrap())));
+                    }
                     Some(e) => if e != *got { out.push((format!("mheap-oracle:{}:{}:wrong-result", surface, op_name(op.k)), format!("{:?} -> {:?}, expected {:?}", op, got, e))); },
                     None => {
                         if got.code != OK_HANDLE || got.val < 0 || r.live.contains_key(&(got.val as u64)) {
@@ -294,7 +335,9 @@ fn oracle_step_biased(surface: &str, r: &mut RefMap, op: &Op, got: &Res, heap: &
         }
         for (i, w) in d.iter().enumerate() {
             match heap.load(*h as usize, i) {
-                Ok(v) if v.raw_bits() == *w => {}
+                Ok(v) if sf.canon(v.raw_bits()) == *w => {}
+                Ok(v) if ph_k(*w).is_some() => { out.push((format!("mheap-oracle:{}:gc:stored-heap-object-lost", surface),
+                    format!("after {:?}: slot ({},{}) was given the string \"pay{}\"; it now holds {:#x} which no longer is that string (collected while only manual memory referred to it)", op, h, i, ph_k(*w).unwrap(), v.raw_bits()))); break; }
                 x => { out.push((format!("mheap-oracle:{}:state:buffer-changed-after-{}", surface, op_name(op.k)), format!("after {:?}: load({},{}) = {:?}, reference {:#x}", op, h, i, x.map(|v| v.raw_bits()).map_err(|e| mh_err(&e)), w))); break; }
             }
         }
@@ -326,6 +369,7 @@ fn gen_value(rng: &mut Rng, vm: bool) -> (u64, String) {
         1 => (Value::bool(true).raw_bits(), "true".into()),
         2 => (Value::float(2.5).raw_bits(), "2.5".into()),
         3 if !vm => { let w = rng.next_u64(); (w, String::new()) }
+        3 | 5 | 6 => { let k = rng.below(1_000_000); (ph(k), format!("\"pay\" + __tostring({})", k)) }   // a fresh heap object whose only reference will be the slot
         4 => { let n = rng.range_i64(-(1 << 47), (1 << 47) - 1); (Value::int(n).raw_bits(), format!("{}", n)) }
         _ => { let n = rng.range_i64(-5, 1000); (Value::int(n).raw_bits(), format!("{}", n)) }
     }
@@ -448,7 +492,8 @@ fn run_history(surf: &str, s: &mut dyn Surface, rng: &mut Rng, len: usize, huge:
         let op = match fixed { Some(f) => f[i].clone(), None => gen_op(rng, &r, surf, huge, dist) };
         if flag("--trace") { eprintln!("#STEP\t{}\t{}\t{}", surf, i, replay_text(std::slice::from_ref(&op))); }
         let got = s.exec(&op);
-        for (sig, d) in oracle_step(surf, &mut r, &op, &got, s.heap()) { findings.push((i, sig, d)); }
+        for (sig, d) in oracle_step(surf, &mut r, &op, &got, &*s) { findings.push((i, sig, d)); }
+        s.after_step(rng, dist);
         dist.hit(&format!("outcome:{}:{}", op_name(op.k), match got.code { OK_HANDLE | OK_UNIT | OK_VAL | OK_SIZE => "ok", E_INVALID_SIZE => "InvalidSize", E_INVALID_HANDLE => "InvalidHandle",
             E_DOUBLE_FREE => "DoubleFree", E_USE_AFTER_FREE => "UseAfterFree", E_OOB => "OutOfBounds", E_NEG => "NegativeIndex", E_TYPE => "TypeError", E_OOM => "OutOfMemory", _ => "other" }));
         if op.k != ALLOC && !(surf == "api") { dist.hit(if op.via_fn { "form:inside-@no_gc-function" } else { "form:top-level" }); }
@@ -471,6 +516,7 @@ fn parse_ops(text: &str) -> Vec<Op> {
         let (v, vsrc) = match f.get(3) {
             Some(&"null") => (NULL_BITS, "null".to_string()),
             Some(&"true") => (Value::bool(true).raw_bits(), "true".to_string()),
+            Some(x) if x.starts_with("pay:") => { let k: u64 = x[4..].parse().expect("pay:k"); (ph(k), format!("\"pay\" + __tostring({})", k)) }
             Some(x) if x.starts_with('#') => (x[1..].parse().expect("raw bits"), String::new()),
             Some(x) if x.contains('.') => (Value::float(x.parse().expect("float")).raw_bits(), x.to_string()),
             Some(x) => { let n: i64 = x.parse().expect("value int"); (Value::int(n).raw_bits(), x.to_string()) }
@@ -482,7 +528,7 @@ fn parse_ops(text: &str) -> Vec<Op> {
 pub fn replay_text(ops: &[Op]) -> String {
     ops.iter().map(|o| {
         let pa = |a: A| match a { A::I(n) => n.to_string(), A::Null => "null".into(), A::Flt => "flt".into() };
-        format!("{} {} {} {} {}", op_name(o.k), pa(o.a), pa(o.b), if o.vsrc.is_empty() { format!("#{}", o.v) } else { o.vsrc.clone() }, if o.via_fn { "fn" } else { "top" })
+        format!("{} {} {} {} {}", op_name(o.k), pa(o.a), pa(o.b), if let Some(k) = ph_k(o.v) { format!("pay:{}", k) } else if o.vsrc.is_empty() { format!("#{}", o.v) } else { o.vsrc.clone() }, if o.via_fn { "fn" } else { "top" })
     }).collect::<Vec<_>>().join("; ")
 }
 
@@ -506,7 +552,7 @@ fn forged_main(seed: u64, hist: u64, dist: &mut Dist) {
             let op = if live.len() >= 2 && rng.chance(1, 3) { Op { k: FREE, a: A::I(*rng.pick(&live) as i128), b: A::Null, v: 0, vsrc: String::new(), via_fn: false } }
                      else { let mut d2 = Dist(BTreeMap::new()); let mut o = gen_op(&mut rng, &r, "api", &huge, &mut d2); if o.k == SIZE || !matches!(ref_expect(&r, &o), Some(_)) { o = Op { k: ALLOC, a: A::I(rng.range_i64(1, 8) as i128), b: A::Null, v: 0, vsrc: String::new(), via_fn: false }; } o };
             let got = s.exec(&op);
-            for (sig, d) in oracle_step("forged", &mut r, &op, &got, s.heap()) { findings.push((pre.len(), sig, d)); }
+            for (sig, d) in oracle_step("forged", &mut r, &op, &got, &s) { findings.push((pre.len(), sig, d)); }
             pre.push(op);
         }
         let room = rng.below(64);                                // bytes left before usize::MAX
@@ -537,11 +583,11 @@ fn forged_main(seed: u64, hist: u64, dist: &mut Dist) {
                 if is_ok(got.code) { findings.push((pre.len() + i, "mheap-oracle:forged:alloc:charge-overflow-not-reported".into(), format!("{:?} -> {:?} with {} bytes of charge left", op, got, left))); }
                 // state must be unchanged: run the whole-state part of the oracle with a no-op
                 let probe = Op { k: SIZE, a: A::I(-1), b: A::Null, v: 0, vsrc: String::new(), via_fn: false };
-                for (sig, d) in oracle_step_biased("forged", &mut r, &probe, &Res { code: E_INVALID_HANDLE, val: 0 }, s.heap(), Some((b, t0))) {
+                for (sig, d) in oracle_step_biased("forged", &mut r, &probe, &Res { code: E_INVALID_HANDLE, val: 0 }, &s, Some((b, t0))) {
                     findings.push((pre.len() + i, sig.replace("after-size", "after-alloc-error"), format!("after failed {:?}: {}", op, d)));
                 }
             } else {
-                for (sig, d) in oracle_step_biased("forged", &mut r, &op, &got, s.heap(), Some((b, t0))) { findings.push((pre.len() + i, sig, d)); }
+                for (sig, d) in oracle_step_biased("forged", &mut r, &op, &got, &s, Some((b, t0))) { findings.push((pre.len() + i, sig, d)); }
             }
             obs.push(got.code as i128); obs.push(got.val); obs.push(s.heap().bytes_allocated() as i128);
             post.push(op);
@@ -569,7 +615,8 @@ fn main() {
     let max_heap: u64 = 16 << 20;
     let replay = arg("--replay-ops");
     let mut dist = Dist(BTreeMap::new());
-    if surf == "byteslimits" { bytes::limits(arg_u64("--max-alloc", 256 << 20) as i64, &mut dist); }
+    if surf == "crossres" { bytes::crossres(&mut dist); }
+    else if surf == "byteslimits" { bytes::limits(arg_u64("--max-alloc", 256 << 20) as i64, &mut dist); }
     else if surf == "bytes" { bytes::main(seed, hist, maxlen, replay, &mut dist); }
     else {
         let huge_api: Vec<i128> = vec![1i128 << 61, (1 << 61) + 5, 1 << 63, u64::MAX as i128];
@@ -588,9 +635,11 @@ fn main() {
                     let (o, b, f) = run_history("api", &mut s, &mut rng, len, &huge_api, &mut dist, fixed.as_deref());
                     let q = format!("QApi [{}]", o.iter().map(|x| coq_op(x, false)).collect::<Vec<_>>().join("; ")); (o, b, f, q) }
                 "natfn" => { let mut s = vmrun::VmSurface::new_direct(max_heap);
+                    if hidx % 2 == 0 || fixed.is_some() { s.force_gc(true); dist.hit("gc:forced-collection-history"); }
                     let (o, b, f) = run_history("natfn", &mut s, &mut rng, len, &huge_vm, &mut dist, fixed.as_deref());
                     let q = format!("QVm SBuiltin {} [{}]", max_heap, o.iter().map(|x| coq_op(x, true)).collect::<Vec<_>>().join("; ")); (o, b, f, q) }
                 "builtin" | "opcode" => { let mut s = vmrun::VmSurface::new(surf == "builtin", opt, max_heap);
+                    if hidx % 2 == 0 || fixed.is_some() { s.force_gc(true); dist.hit("gc:forced-collection-history"); } else { s.force_gc(false); }
                     let (o, b, f) = run_history(&surf, &mut s, &mut rng, len, &huge_vm, &mut dist, fixed.as_deref());
                     let q = format!("QVm {} {} [{}]", if surf == "builtin" { "SBuiltin" } else { "SOpcode" }, max_heap, o.iter().map(|x| coq_op(x, true)).collect::<Vec<_>>().join("; ")); (o, b, f, q) }
                 _ => panic!("unknown surface"),
